@@ -65,6 +65,5 @@ package dns
 //@ spec svcw(b int) int = (b == 34 || b == 59 || b == 32 || b == 92) ? 2 : ((b < 32 || b > 126) ? 4 : 1)
 //@ spec svcsum(s seq, n int) int = n <= 0 ? 0 : svcsum(s, n - 1) + svcw(s[n-1]) decreases n
 //@ func svcbParamToStr [C02 C05]
-//@   assume at "str.Grow(4 * len(s))" empty: ghost(str, "len") == 0
 //@   ensures width: len(ret0) == svcsum(s, len(s))
 //@   loop 1 invariant ghost(str, "len") == svcsum(s, rangeindex + 1) && -1 <= rangeindex && rangeindex < len(s)
